@@ -105,7 +105,7 @@ theorem pairExec_swap_native_ok {w w' : World} {s p d amt : Nat} {funds : List (
   | none => simp [hP] at h
   | some P =>
     simp only [hP, bind_ok_iff] at h
-    obtain ⟨w0, hat, ⟨w1, o1⟩, hsw, hret⟩ := h
+    obtain ⟨w0, hat, _, _, ⟨w1, o1⟩, hsw, hret⟩ := h
     simp only [pure_ok_iff, Prod.mk.injEq, Out.swap.injEq] at hret
     obtain ⟨rfl, rfl⟩ := hret
     exact ⟨P, w0, rfl, hat, hsw⟩
@@ -172,7 +172,7 @@ theorem tokSendPair_swap_ok {w w' : World} {t u p amt a : Nat} {offer : Asset}
         by_cases hof : offer = Asset.token t
         · rw [if_neg (fun hh => hh hof)] at hrc
           simp only [bind_ok_iff, pure_ok_iff, Prod.mk.injEq] at hrc
-          obtain ⟨⟨w1, o⟩, hsw, rfl, rfl⟩ := hrc
+          obtain ⟨_, _, ⟨w1, o⟩, hsw, rfl, rfl⟩ := hrc
           subst hof ha
           exact ⟨P, w0, o, rfl, rfl, htr, rfl, rfl, hau, hsw⟩
         · rw [if_pos hof] at hrc; cases hrc
